@@ -3,9 +3,11 @@
 use crate::engine::{Ctx, Fail};
 use serde_json::Value as J;
 
+pub mod targets;
 pub mod c02;
 pub mod c05;
 pub mod c07;
+pub mod c10;
 pub mod c13;
 pub mod c18;
 
@@ -21,6 +23,7 @@ pub fn run(ctx: &Ctx) -> bool {
         "C02" => c02::run(ctx),
         "C05" => c05::run(ctx),
         "C07" => c07::run(ctx),
+        "C10" => c10::run(ctx),
         "C13" => c13::run(ctx),
         "C18" => c18::run(ctx),
         _ => return false,
@@ -33,6 +36,7 @@ pub fn replay(ctx: &Ctx, id: &str, kind: &str, case: &J) -> Vec<Fail> {
         "C02" => c02::replay(ctx, kind, case),
         "C05" => c05::replay(ctx, kind, case),
         "C07" => c07::replay(ctx, kind, case),
+        "C10" => c10::replay(ctx, kind, case),
         "C13" => c13::replay(ctx, kind, case),
         "C18" => c18::replay(ctx, kind, case),
         _ => vec![Fail::new("harness", format!("no replay for property {}", id))],
@@ -72,6 +76,9 @@ pub fn run_saved_replays(ctx: &Ctx) {
     }
 }
 
-pub fn worker_main(_args: &[String]) -> i32 {
-    2
+pub fn worker_main(args: &[String]) -> i32 {
+    match args.first().map(|s| s.as_str()) {
+        Some("parsers") => crate::engine::worker::worker_loop(targets::parser_target),
+        _ => 2,
+    }
 }
